@@ -133,7 +133,7 @@ def run_interp_check(pid, gen, fields, counts, tier, seed, rule, design_ref, ext
                 got = rec["impl"].get(e["field"]) if e["field"] != "status" else rec["impl"]["status"]
                 if rec["impl"]["status"] == "panic":
                     got = "panic"
-                if str(got) == str(e["want"]):
+                if str(got) == str(e["want"]) or str(got) in [str(w) for w in e.get("want_any", [])]:
                     continue
                 if e.get("finding") and e["finding"] in known_ids:
                     res.known(e["finding"], "%s :: %s (got %s, the property requires %s)" % (e["finding"], e["why"], got, e["want"]))
